@@ -247,6 +247,13 @@ namespace llbuild {
       bool controlEnabled = true;
     };
 
+    /// Whether the given environment key is assigned by \see spawnProcess()
+    /// itself for each process; a requested or inherited value for such a key
+    /// must not be passed on, it would shadow the process's own value.
+    inline bool isProcessAssignedEnvironmentKey(StringRef key) {
+      return key == "LLBUILD_TASK_ID" || key == "LLBUILD_CONTROL_FD";
+    }
+
     /// Execute the given command line.
     ///
     /// This will launch and execute the given command line and wait for it to
